@@ -207,7 +207,14 @@ class C11(Check):
         p = gen_params(rng)
         if str(p.get("cosmology", "")).startswith(("custom", "flcdm")):
             p["cosmology"] = "WMAP7"  # only named cosmologies can be serialised (documented)
-        cfg = Configuration.create(**realise(p, numpy_types=case["seed"] % 3 == 1))
+        nt = [False, True, False, "f4"][case["seed"] % 4]
+        if nt == "f4":
+            for k in ("zmin", "zmax"):
+                if isinstance(p.get(k), float):
+                    p[k] = float(np.float32(p[k]))
+            if "zmin" in p and not p["zmin"] < p["zmax"]:
+                nt = False
+        cfg = Configuration.create(**realise(p, numpy_types=nt))
         path = tmp / "config.yml"
         tag = "custom-edges" if "edges" in p else p["method"]
         try:
